@@ -72,6 +72,7 @@ def parse_filter_dict(filter_dict: Dict[str, Any]) -> List[FilterExpression]:
                 expressions.append(FilterExpression(column, FilterOp.IS_NOT_NULL, None))
             else:
                 op = _parse_op(op_str)
+                _check_value(column, op, value)
                 expressions.append(FilterExpression(column, op, value))
         elif condition is None:
             # {"column": None} reads as "column IS NULL", but SQL equality with
@@ -82,10 +83,46 @@ def parse_filter_dict(filter_dict: Dict[str, Any]) -> List[FilterExpression]:
                 f"no rows in SQL semantics. Use {{'{column}': ('is_null', True)}} to "
                 f"select NULLs, or ('is_not_null', True) for the complement."
             )
+        elif isinstance(condition, (tuple, list, set, frozenset, dict)):
+            # A tuple that is not an (operator, value) pair - e.g. (">", 1, 2) or
+            # (">",) - or a bare list/set is a malformed condition, not a value to
+            # compare with: no column type holds containers. Refuse it here rather
+            # than turn it into an equality that only pyarrow may or may not reject.
+            raise ValueError(
+                f"Malformed filter condition for {column!r}: {condition!r}. Use a "
+                f"scalar for equality or an (operator, value) tuple, e.g. "
+                f"('in', [...]) for a list of values."
+            )
         else:
             # Simple equality: {"column": value}
             expressions.append(FilterExpression(column, FilterOp.EQ, condition))
     return expressions
+
+
+def _check_value(column: str, op: FilterOp, value: Any) -> None:
+    """Reject operand shapes the operator cannot mean anything for.
+
+    Validation happens at parse time so that a malformed filter raises on every
+    table - including an empty one, where no expression is ever evaluated.
+    """
+    if op in (FilterOp.IN, FilterOp.NOT_IN):
+        # A str is iterable, but ("in", "failed") means the characters f, a, i, l,
+        # e, d - never what the caller wanted.
+        if isinstance(value, (str, bytes)):
+            raise ValueError(
+                f"Filter on {column!r}: '{op.value}' needs a list of values, got the "
+                f"string {value!r}; write [{value!r}] for a one-element list"
+            )
+        try:
+            iter(value)
+        except TypeError:
+            raise ValueError(
+                f"Filter on {column!r}: '{op.value}' needs a list of values, got {value!r}"
+            ) from None
+    elif isinstance(value, (tuple, list, set, frozenset, dict)):
+        raise ValueError(
+            f"Filter on {column!r}: '{op.value}' compares with a single value, got {value!r}"
+        )
 
 
 def _parse_op(op_str: str) -> FilterOp:
